@@ -15,8 +15,8 @@ i = s.index("### 0.7 Seeded property-breaking changes")
 j = s.index("### 0.8 Behaviour-preserving rewrites")
 new = f'''### 0.7 Seeded property-breaking changes and the checks that catch them
 
-{len(rows)} changes written by fresh sub-agents that saw only one property's text and a scratch worktree, in eleven rounds
-(`seeded/Cxx`, `Cxxb` … `Cxxk`; `C20g` was dropped again: it makes the repository's own MCMC test fail in some runs). Round two was told what round one had done and asked for a different clause / site /
+{len(rows)} changes written by fresh sub-agents that saw only one property's text and a scratch worktree, in twelve rounds
+(`seeded/Cxx`, `Cxxb` … `Cxxl`, the last one for eight properties only; `C20g` was dropped again: it makes the repository's own MCMC test fail in some runs). Round two was told what round one had done and asked for a different clause / site /
 trigger; every later round was shown what all earlier ones need in order to manifest and was given a theme: round three the
 **glue** (construction paths and entry points, parameter handling and defaults, helper modules such as the motif generators,
 representation conversions, behaviour after several calls on one object); round four **boundaries and numerics**
@@ -32,7 +32,9 @@ orientation and order asymmetries, partial failure** (a statement one indentatio
 `break` for `continue`, (u,v) vs (v,u), sorted vs given order, an early return that drops a case); round ten **language and library semantics, numerical
 or combinatorial reformulation, docstring-driven fixes** (`round` vs `int`, negative slice starts, `list.remove`, truthiness of
 names, `np.prod` over ints, `k*(1/N)` vs `k/N`, closed forms with a wrong singular branch); round eleven had **no theme** again (the agents were asked for
-the most realistic, hardest-to-notice slip and for a clause of the statement that the ten earlier changes had left alone).
+the most realistic, hardest-to-notice slip and for a clause of the statement that the ten earlier changes had left alone). Round
+twelve (eight properties: C01 C04 C11 C12 C13 C14 C17 C20) was pointed at the code that §0.9 brought into the model — the control flow of `rewire()`,
+how proposals reach `swap_condition`, the label accessors — and otherwise at entry points and call histories.
 Each was confirmed here in a scratch worktree (compiles, the whole pinned test suite of 47 tests passes — `tools/seed_tests.py` —, `demo.py` exits 0 on the
 unchanged tree and 1 with the change) and is kept as `seeded/<id>/{{patch.diff,demo.py,meta.json}}`. `tools/regress.py` applies
 every one of them to a scratch worktree and runs the quick check of the property it breaks: **{len(rows)} of {len(rows)} exit 1 with
@@ -51,7 +53,7 @@ loader in C06, a phi sweep on one evaluator in C15, a NaN member in C20; in roun
 the sequence edited between the two conversions (C04), double-precision runs at large degrees (C07), integer count targets (C12),
 the exact float quotient (C18); in round eleven 5 of 20: callbacks that reuse one list object (C02), 1-cliques (C08), the number
 of accepted swaps at the end of a run (C12), the same motif with other neighbour values on one evaluator (C15), coded topology
-keys in labels (C17)), twice a sharper observation (C03: motifs
+keys in labels (C17); in round twelve 1 of 8: the member in the last slot of a set of more than 257 (C20)), twice a sharper observation (C03: motifs
 as built, not only callback inputs; C13: the network must be untouched by the extraction).
 
 ''' + "\n".join(out) + "\n\n"
